@@ -73,6 +73,18 @@ type mgen struct {
 	tuplesets []string // tupleset relations every object type has ("p", sometimes also "q")
 }
 
+// nChildren: 2-3 operands, now and then a single one (only JSON / protobuf models can carry a one-child
+// union or intersection; it still is an operator occurrence with its own node) or a wide one.
+func (g *mgen) nChildren() int {
+	switch k := g.r.Intn(20); {
+	case k == 0:
+		return 1
+	case k == 1:
+		return 4 + g.r.Intn(3)
+	}
+	return 2 + g.r.Intn(2)
+}
+
 func (g *mgen) tupleset() string { return g.tuplesets[g.r.Intn(len(g.tuplesets))] }
 
 // Model generates one model. Constraints (DESIGN §7-b): at most one `this` and no two identical leaves under
@@ -149,6 +161,9 @@ func Model(r *rand.Rand, opt ModelOpt) *openfgav1.AuthorizationModel {
 			md := &openfgav1.RelationMetadata{}
 			if hasThis {
 				md.DirectlyRelatedUserTypes = g.restrictions(terms, objs, relNames)
+			} else if r.Intn(2) == 0 {
+				// what the DSL reader produces for a relation without direct assignment: an EMPTY, non-nil list
+				md.DirectlyRelatedUserTypes = []*openfgav1.RelationReference{}
 			}
 			if !hasThis && sparseMeta && r.Intn(2) == 0 {
 				continue // API-style models carry metadata entries only for relations with type restrictions
@@ -228,7 +243,7 @@ func (g *mgen) children(n, depth int, rels []string, hasThis *bool, self string)
 		seen[key] = true
 		ch = append(ch, c)
 	}
-	for len(ch) < 2 {
+	for len(ch) < n {
 		ch = append(ch, TTU(rels[len(ch)%len(rels)], g.tuplesets[len(ch)%len(g.tuplesets)]))
 	}
 	return ch
@@ -262,11 +277,16 @@ func (g *mgen) userset(depth int, rels []string, hasThis *bool, self string) *op
 		}
 		return Computed(rel)
 	case k < 6:
+		if g.opt.Hazards && r.Intn(12) == 0 {
+			// a tuple-to-userset over an ordinary relation: it may have no type restrictions at all, userset or
+			// wildcard restrictions, or parent types lacking the computed relation
+			return TTU(rels[r.Intn(len(rels))], rels[r.Intn(len(rels))])
+		}
 		return TTU(rels[r.Intn(len(rels))], g.tupleset())
 	case k < 8 || (k < 10 && r.Intn(3) > 0):
-		return Union(g.children(2+r.Intn(2), depth+1, rels, hasThis, self)...)
+		return Union(g.children(g.nChildren(), depth+1, rels, hasThis, self)...)
 	case k < 9:
-		return Inter(g.children(2+r.Intn(2), depth+1, rels, hasThis, self)...)
+		return Inter(g.children(g.nChildren(), depth+1, rels, hasThis, self)...)
 	default:
 		ch := g.children(2, depth+1, rels, hasThis, self)
 		return Diff(ch[0], ch[1])
